@@ -1,7 +1,7 @@
 (* C07  The share field is the integers mod 2^128+12451 with one canonical encoding.  Statements only. *)
 From Coq Require Import ZArith Znumtheory NArith List Field.
 Import ListNotations.
-From StarV Require Import Params Bytes Fp Primality FieldFacts ShamirFacts LimbPrim LimbGen FpLimbs LimbFacts LimbLift.
+From StarV Require Import Params Bytes Fp Primality FieldFacts ShamirFacts LimbPrim LimbGen FpLimbs LimbFacts LimbLift LimbOrd.
 Open Scope Z_scope.
 
 (* the modulus the source declares is 2^128 + 12451 and is prime (Pratt certificate, checked by the kernel) *)
@@ -160,3 +160,7 @@ Proof. exact lfrom_repr_correct. Qed.
 Theorem C07_limbs_lift : forall (env : list limbs) (e : fexpr), Forall lvalid env ->
   orel (eval_l env e) (eval_f (map labs env) e).
 Proof. exact eval_lift. Qed.
+
+(* impl Ord for Fp (generated): the order of the canonical integers *)
+Theorem C07_limbs_ord : forall a b : limbs, lvalid a -> lvalid b -> lcmp a b = (val (labs a) ?= val (labs b)).
+Proof. exact lcmp_correct. Qed.
